@@ -313,4 +313,189 @@ func c13(r *core.Run) {
 			}
 		}
 	})
+
+	r.Check("D6/K6/order-agreement", "keys are sorted ascending and both binary searches look for the first key >= hash (writer and readers agree on the order)", func(o *core.O) {
+		if !o.Need(add != nil && get != nil && rem != nil, "AddWithReplicas / Get / Remove") {
+			return
+		}
+		keyAt := func(idx func(ssa.Value) bool) func(ssa.Value) bool {
+			return func(v ssa.Value) bool {
+				u, ok := v.(*ssa.UnOp)
+				if !ok || u.Op != token.MUL {
+					return false
+				}
+				ia, ok := u.X.(*ssa.IndexAddr)
+				return ok && core.IsFieldLoad(ia.X, "ConsistentHash.keys") && idx(ia.Index)
+			}
+		}
+		nthParam := func(f *ssa.Function, n int) func(ssa.Value) bool {
+			return func(v ssa.Value) bool { pa, ok := v.(*ssa.Parameter); return ok && len(f.Params) > n && pa == f.Params[n] }
+		}
+		n := 0
+		// comparator of the sort
+		for _, an := range add.AnonFuncs {
+			if len(an.Params) != 2 {
+				continue
+			}
+			n++
+			less := core.Cmp(token.LSS, keyAt(nthParam(an, 0)), keyAt(nthParam(an, 1)))
+			for _, ret := range core.Returns(an) {
+				if m, pos := less(core.Result(ret, 0)); !m || !pos {
+					o.Fail(p.InstrPos(ret), "sort comparator is not keys[i] < keys[j] (ring would not be ascending)")
+				}
+			}
+		}
+		// search predicates
+		for _, f := range []*ssa.Function{get, rem} {
+			for _, an := range f.AnonFuncs {
+				if len(an.Params) != 1 {
+					continue
+				}
+				n++
+				geq := core.Cmp(token.GEQ, keyAt(nthParam(an, 0)), core.IsFreeVar("hash"))
+				for _, ret := range core.Returns(an) {
+					if m, pos := geq(core.Result(ret, 0)); !m || !pos {
+						o.Fail(p.InstrPos(ret), "%s: search predicate is not keys[i] >= hash", core.FuncName(f))
+					}
+				}
+			}
+		}
+		o.Site(n, core.FuncName(add), core.FuncName(get), core.FuncName(rem))
+		if n < 3 {
+			o.Fail(p.Pos(add.Pos()), "sort comparator / search predicates not found (%d of 3)", n)
+		}
+	})
+	r.Check("D6/K1/membership-bookkeeping", "AddWithReplicas records the node, Remove is a no-op only for unknown nodes, forgets the node afterwards, and drops from a shared slot only the removed node", func(o *core.O) {
+		if !o.Need(add != nil && rem != nil, "AddWithReplicas / Remove") {
+			return
+		}
+		isAddNode := func(in ssa.Instruction) bool {
+			if core.CallMethod("hash.ConsistentHash", "addNode")(in) {
+				return true
+			}
+			return core.IsMapUpdateOn("ConsistentHash.nodes")(in)
+		}
+		o.Site(1, core.FuncName(add))
+		if w := core.MustPass(core.Entry(add), isAddNode, core.IsReturn); w != nil {
+			o.Fail(p.InstrPos(w), "AddWithReplicas can return without recording the node (a later Remove/re-add would not replace its virtual nodes)")
+		}
+		// Remove: early return only when !containsNode
+		contains := core.BoolVal(func(v ssa.Value) bool {
+			if core.IsResult(v, 0, core.CallMethod("hash.ConsistentHash", "containsNode")) {
+				return true
+			}
+			e, ok := v.(*ssa.Extract)
+			if !ok || e.Index != 1 {
+				return false
+			}
+			l, ok := e.Tuple.(*ssa.Lookup)
+			return ok && core.IsFieldLoad(l.X, "ConsistentHash.nodes")
+		})
+		known, _ := core.EdgesOf(rem, contains)
+		o.Site(len(known), core.FuncName(rem))
+		if len(known) == 0 {
+			o.Fail(p.Pos(rem.Pos()), "Remove does not test membership")
+		}
+		isForget := func(in ssa.Instruction) bool {
+			if core.CallMethod("hash.ConsistentHash", "removeNode")(in) {
+				return true
+			}
+			c, ok := in.(*ssa.Call)
+			if !ok {
+				return false
+			}
+			b, ok := c.Call.Value.(*ssa.Builtin)
+			return ok && b.Name() == "delete" && core.IsFieldLoad(c.Call.Args[0], "ConsistentHash.nodes")
+		}
+		var from []core.At
+		for _, e := range known {
+			from = append(from, core.Head(e.To))
+		}
+		if w, ok := core.Reach(core.Q{From: from, Target: core.IsReturn, Blocked: isForget}); ok {
+			o.Fail(p.InstrPos(w), "Remove of a known node can return without forgetting it")
+		}
+		if n := len(core.Calls(rem, core.CallMethod("hash.ConsistentHash", "removeRingNode"))); n == 0 {
+			o.Fail(p.Pos(rem.Pos()), "Remove never drops the node from the ring slots")
+		}
+		// removeRingNode keeps exactly the entries whose repr differs from the removed node
+		rr := p.Func(hashPkg, "ConsistentHash", "removeRingNode")
+		if o.Need(rr != nil, "ConsistentHash.removeRingNode") {
+			r.Fn(core.FuncName(rr))
+			differs := core.Cmp(token.NEQ, func(v ssa.Value) bool { return core.IsResult(v, 0, core.CallTo("lib/hash.repr", "lib/lang.Repr")) }, core.IsParam("nodeRepr"))
+			isAppend := func(in ssa.Instruction) bool {
+				c, ok := in.(*ssa.Call)
+				if !ok {
+					return false
+				}
+				b, ok := c.Call.Value.(*ssa.Builtin)
+				return ok && b.Name() == "append"
+			}
+			o.Site(len(core.Instrs(rr, isAppend)), core.FuncName(rr))
+			if core.EdgeCount(rr, differs) == 0 {
+				o.Fail(p.Pos(rr.Pos()), "slot entries are not compared with the removed node's repr")
+			}
+			if w := core.Requires(rr, isAppend, differs); w != nil {
+				o.Fail(p.InstrPos(w), "a slot entry is kept without differing from the removed node (or other nodes are dropped)")
+			}
+			same, _ := core.EdgesOf(rr, core.Not(differs))
+			for _, e := range same {
+				// on the equal edge the very next append must not be reached before the loop continues
+				if w, ok := core.Reach(core.Q{From: []core.At{core.Head(e.To)}, Target: isAppend, Blocked: func(in ssa.Instruction) bool {
+					_, isIf := in.(*ssa.If)
+					return isIf
+				}}); ok {
+					o.Fail(p.InstrPos(w), "the removed node itself is kept in the slot")
+				}
+			}
+		}
+	})
+
+	r.Check("D6/K2/remove-drops-key-exactly", "Remove deletes a virtual node's key from keys whenever the search found it (index inside keys and keys[index] == hash), so no key is left without a ring entry", func(o *core.O) {
+		if !o.Need(rem != nil, "ConsistentHash.Remove") {
+			return
+		}
+		isSearch := func(v ssa.Value) bool {
+			c, ok := v.(*ssa.Call)
+			return ok && core.Short(core.CalleeName(c)) == "sort.Search"
+		}
+		lenKeys := core.IsLenOf(core.FieldLoad("ConsistentHash.keys"))
+		inside := core.AnyOf(core.Cmp(token.LSS, isSearch, lenKeys), core.Cmp(token.NEQ, isSearch, lenKeys))
+		isHashVal := func(v ssa.Value) bool {
+			v = core.Forward(v)
+			c, ok := v.(*ssa.Call)
+			return ok && isHashCall(c)
+		}
+		found := core.Cmp(token.EQL, func(v ssa.Value) bool {
+			u, ok := v.(*ssa.UnOp)
+			if !ok || u.Op != token.MUL {
+				return false
+			}
+			ia, ok := u.X.(*ssa.IndexAddr)
+			return ok && core.IsFieldLoad(ia.X, "ConsistentHash.keys") && isSearch(ia.Index)
+		}, isHashVal)
+		stores := core.Instrs(rem, core.IsStoreToField("ConsistentHash.keys"))
+		o.Site(len(stores), core.FuncName(rem))
+		if len(stores) == 0 {
+			o.Fail(p.Pos(rem.Pos()), "Remove never deletes from keys")
+			return
+		}
+		if core.EdgeCount(rem, inside) == 0 {
+			o.Fail(p.Pos(rem.Pos()), "the search result is not compared with len(keys) itself (a found key at the end of the ring would be kept, or the index could be out of range)")
+		}
+		if core.EdgeCount(rem, found) == 0 {
+			o.Fail(p.Pos(rem.Pos()), "keys[index] is not compared with the virtual node's hash")
+		}
+		isStore := core.IsStoreToField("ConsistentHash.keys")
+		if w := core.Requires(rem, isStore, found); w != nil {
+			o.Fail(p.InstrPos(w), "a key is deleted although it is not the virtual node's hash")
+		}
+		// once found, the key must be deleted before the ring entry is dropped
+		fe, _ := core.EdgesOf(rem, found)
+		isRing := core.CallMethod("hash.ConsistentHash", "removeRingNode")
+		for _, e := range fe {
+			if w, ok := core.Reach(core.Q{From: []core.At{core.Head(e.To)}, Target: isRing, Blocked: isStore}); ok {
+				o.Fail(p.InstrPos(w), "the ring entry is dropped although the found key was not deleted from keys")
+			}
+		}
+	})
 }
